@@ -35,7 +35,8 @@ func c03StmtImpl(c Case) []int64 {
 }
 
 type c03StmtGen struct {
-	r *Rng
+	r    *Rng
+	nlex int // counter for the names of let / const declarations (unique in a program: no redeclaration errors)
 }
 
 func (g *c03StmtGen) kw(t js.TokenType) c03Jtok { return c03OpTok(t) }
@@ -84,9 +85,12 @@ func (g *c03StmtGen) end(ts []c03Jtok) ([]c03Jtok, bool) {
 }
 
 // stmt returns the tokens of one statement and whether the next token must start a new line
-func (g *c03StmtGen) stmt(depth int) ([]c03Jtok, bool) {
+func (g *c03StmtGen) stmt(depth int, decl bool) ([]c03Jtok, bool) {
 	r := g.r
 	k := r.Intn(17)
+	if decl && r.Chance(1, 8) {
+		k = 17
+	}
 	if depth <= 0 && (k < 5 || k == 12 || k >= 14) {
 		k = 5 + r.Intn(7)
 	}
@@ -95,7 +99,7 @@ func (g *c03StmtGen) stmt(depth int) ([]c03Jtok, bool) {
 		ts := []c03Jtok{g.kw(js.OpenBraceToken)}
 		nl := false
 		for i := 0; i < n; i++ {
-			s, snl := g.stmt(depth - 1)
+			s, snl := g.stmt(depth-1, true)
 			if nl && len(s) > 0 {
 				s[0].lt = true
 			}
@@ -106,7 +110,7 @@ func (g *c03StmtGen) stmt(depth int) ([]c03Jtok, bool) {
 	}
 	cond := func() []c03Jtok { return c03Cat(c03TkLP, g.expr(), c03TkRP) }
 	sub := func() []c03Jtok {
-		s, nl := g.stmt(depth - 1)
+		s, nl := g.stmt(depth-1, false)
 		if nl {
 			s = append(s, c03TkSemi) // a sub-statement is closed explicitly
 		}
@@ -118,7 +122,7 @@ func (g *c03StmtGen) stmt(depth int) ([]c03Jtok, bool) {
 		ts := []c03Jtok{g.kw(js.OpenBraceToken)}
 		nl := false
 		for i := 0; i < n; i++ {
-			s, snl := g.stmt(depth - 1)
+			s, snl := g.stmt(depth-1, true)
 			if nl && len(s) > 0 {
 				s[0].lt = true
 			}
@@ -137,7 +141,7 @@ func (g *c03StmtGen) stmt(depth int) ([]c03Jtok, bool) {
 	case 3: // do-while
 		return g.end(c03Cat(g.kw(js.DoToken), sub(), g.kw(js.WhileToken), cond()))
 	case 4: // label
-		s, nl := g.stmt(depth - 1)
+		s, nl := g.stmt(depth-1, false)
 		return c03Cat(c03Jt(js.IdentifierToken, "l"), c03TkColon, s), nl
 	case 5: // throw
 		return g.end(c03Cat(g.kw(js.ThrowToken), g.expr()))
@@ -165,6 +169,27 @@ func (g *c03StmtGen) stmt(depth int) ([]c03Jtok, bool) {
 		return g.end(ts)
 	case 8: // empty
 		return []c03Jtok{c03TkSemi}, false
+	case 17: // let / const declaration (only where declarations are allowed), fresh names
+		isConst := r.Bool()
+		ts := []c03Jtok{g.kw(js.LetToken)}
+		if isConst {
+			ts = []c03Jtok{g.kw(js.ConstToken)}
+		}
+		for i, n := 0, 1+r.Intn(2); i < n; i++ {
+			if i > 0 {
+				ts = append(ts, c03TkComma)
+			}
+			g.nlex++
+			ts = append(ts, c03Jt(js.IdentifierToken, fmt.Sprintf("x%d", g.nlex)))
+			if isConst || r.Bool() {
+				e := g.expr()
+				if len(e) == 3 && e[1].ty == js.CommaToken {
+					e = e[:1]
+				}
+				ts = c03Cat(ts, js.EqToken, e)
+			}
+		}
+		return g.end(ts)
 	case 13: // debugger
 		return g.end([]c03Jtok{g.kw(js.DebuggerToken)})
 	case 14: // with
@@ -201,7 +226,7 @@ func (g *c03StmtGen) stmt(depth int) ([]c03Jtok, bool) {
 			ts = append(ts, head...)
 			nl = false
 			for j, m := 0, r.Intn(3); j < m; j++ {
-				st, snl := g.stmt(depth - 1)
+				st, snl := g.stmt(depth-1, true)
 				if nl && len(st) > 0 {
 					st[0].lt = true
 				}
@@ -280,10 +305,11 @@ func c03StmtGenCases(r *Rng, tier string, emit func(Case)) {
 	}
 	g := &c03StmtGen{r: r}
 	for i := 0; i < n; i++ {
+		g.nlex = 0
 		var ts []c03Jtok
 		nl := false
 		for k := 1 + r.Intn(3); k > 0; k-- {
-			s, snl := g.stmt(r.Intn(4))
+			s, snl := g.stmt(r.Intn(4), true)
 			if nl && len(s) > 0 {
 				s[0].lt = true
 			}
